@@ -13,10 +13,17 @@ if [ ! -x "$VERIF/bin/vinst" ]; then
   (cd "$VERIF/vinst" && go build -o "$VERIF/bin/vinst" .) || { echo "cannot build vinst" >&2; exit 2; }
 fi
 ACCESS=""
-case "${1:-}" in C11|C12) ACCESS="-access";; esac
+case "${1:-}" in C11|C12) ACCESS="-access";; replay) grep -q '"engine": "conc-' "${2:-/dev/null}" 2>/dev/null && ACCESS="-access";; esac
 [ "${VERIF_ACCESS:-}" = 1 ] && ACCESS="-access"
 "$VERIF/bin/vinst" $ACCESS "$SCR/ov" "$VERIF/vrt" "$REPO" > "$SCR/vinst.log" 2>&1 || { cat "$SCR/vinst.log" >&2; echo "instrumentation failed" >&2; exit 2; }
 cp "$REPO/go.sum" "$VERIF/go.sum" 2>/dev/null
 go build -overlay "$SCR/ov/overlay.json" -o "$SCR/vcheck" ./cmd/vcheck > "$SCR/build.log" 2>&1 || { cat "$SCR/build.log" >&2; echo "build failed" >&2; exit 2; }
+# C11/C12 (and their replays) also need the plain -race build for the free-running pass
+NEEDRACE=""
+case "${1:-}" in C11|C12) NEEDRACE=1;; replay) grep -q '"engine": "race"' "${2:-/dev/null}" 2>/dev/null && NEEDRACE=1;; esac
+if [ -n "$NEEDRACE" ]; then
+  go build -race -overlay "$SCR/ov/overlay-plain.json" -o "$SCR/vcheck-race" ./cmd/vcheck > "$SCR/build-race.log" 2>&1 || { cat "$SCR/build-race.log" >&2; echo "race build failed" >&2; exit 2; }
+  export VERIF_RACE_BIN="$SCR/vcheck-race"
+fi
 export VERIF_OVERLAY="$SCR/ov" VERIF_SCRATCH="$SCR"
 "$SCR/vcheck" "$@"
